@@ -1093,3 +1093,24 @@ Fixpoint coiter_loop (fuel : nat) (L right : Z) (r1 r2 : list Z) (k1 lo1 k2 lo2 
 
 Definition coiterate (L : Z) (bps1 bps2 : list Z) : res (list (list Z)) :=
   coiter_loop (length bps1 + length bps2) L 0 (tl bps1) (tl bps2) 0 (hd 0 bps1) 0 (hd 0 bps2).
+
+(* ------------------------------------------------------------------------------------ *)
+(* Python Tree.mrca with a variable number of arguments (trees.py 1012-1029): fold of       *)
+(* tsk_tree_get_mrca over the arguments, stopping as soon as there is no common ancestor   *)
+(* ------------------------------------------------------------------------------------ *)
+Fixpoint mrca_fold (q : tseq) (t : tree) (m : Z) (args : list Z) : res Z :=
+  match args with
+  | [] => Ok m
+  | x :: r => do m' <- mrca q t m x; if m' =? NULL then Ok NULL else mrca_fold q t m' r
+  end.
+Definition py_mrca (q : tseq) (t : tree) (args : list Z) : res Z :=
+  match args with
+  | a :: ((_ :: _) as r) => mrca_fold q t a r
+  | _ => Err 6          (* ValueError: Must supply at least two arguments *)
+  end.
+
+Definition model_mrca (L : Z) (ns : list node) (es : list edge) (o : topts) (argsl : list (list Z))
+  : res (list (list Z)) :=
+  do q <- load L ns es;
+  do ts <- all_trees q o;
+  mapM (fun t => mapM (py_mrca q t) argsl) ts.
